@@ -1493,6 +1493,7 @@ func udRetx(o *udOut, r *u.Rng, scripted bool) {
 	var hist []string
 	// --- the first flight ---
 	var flight []string
+	sentFrames := map[int64][]quic.VerifRange{} // CRYPTO frames of every packet sent
 	sent := make([]bool, n) // bytes that were on the wire at least once
 	var pns []int64
 	for i := 0; i < 64; i++ {
@@ -1527,6 +1528,7 @@ func udRetx(o *udOut, r *u.Rng, scripted bool) {
 			}
 		}
 		flight = append(flight, u.Pair(u.Z(pkt.PN), udRanges(pkt.Frames)))
+		sentFrames[pkt.PN] = pkt.Frames
 		pns = append(pns, pkt.PN)
 		hist = append(hist, fmt.Sprintf("sent pn%d %v", pkt.PN, pkt.Frames))
 	}
@@ -1611,6 +1613,7 @@ func udRetx(o *udOut, r *u.Rng, scripted bool) {
 					}
 				}
 				hist = append(hist, fmt.Sprintf("resent pn%d %v", pkt.PN, pkt.Frames))
+				sentFrames[pkt.PN] = pkt.Frames
 			}
 			ops = append(ops, u.App("RPack", u.B(probe), "false", udRanges(before), udRanges(popped), udRanges(after), u.B(udAsPacked(pkt)), res))
 			if dead || (pkt == nil && err == nil) {
@@ -1650,20 +1653,36 @@ func udRetx(o *udOut, r *u.Rng, scripted bool) {
 		}
 		ops = append(ops, u.App("RPack", "true", "true", udRanges(before), "[]", udRanges(rx.Queue()), u.B(udAsPacked(pkt)), res))
 	}
-	if !dead && len(rx.Outstanding()) > 0 {
-		// Handshake keys arrive while an Initial packet still has to be retransmitted: the
-		// datagram must stay within the maximum packet size and every packet in it must be
-		// where a receiver looks for it (no datagram padding between coalesced packets)
+	// Handshake keys arrive while an Initial packet still has to be retransmitted: the datagram
+	// must stay within the maximum packet size and every packet in it must be where a receiver
+	// looks for it (no datagram padding between coalesced packets)
+	victim := int64(-1)
+	if !dead {
 		outst := rx.Outstanding()
 		sort.Slice(outst, func(i, j int) bool { return outst[i] < outst[j] })
-		rx.Lose(outst[0])
+		for _, pn := range outst {
+			if len(sentFrames[pn]) > 0 {
+				victim = pn
+				break
+			}
+		}
+	}
+	if victim >= 0 {
+		rx.Lose(victim)
+		ops = append(ops, u.App("RLose", u.Z(victim)))
+		hist = append(hist, fmt.Sprintf("lost pn%d; Handshake keys + 300 bytes", victim))
 		rx.GiveHandshakeKeys(300)
+		before := rx.Queue()
 		pkt, err, pan := rx.Pack(false, false)
+		after := rx.Queue()
+		popped, _ := udPopped(before, after)
 		switch {
 		case pan != nil:
 			o.fail("udial/retx/coalesced", fmt.Sprintf("packing an Initial retransmission together with Handshake data panics: %v", pan), detail(strings.Join(hist, "; ")))
+			ops = append(ops, u.App("RCoalesce", udRanges(before), udRanges(popped), udRanges(after), "false", "0", u.App("RErr", "3")))
 		case err != nil:
 			o.fail("udial/retx/coalesced", "packing an Initial retransmission together with Handshake data fails: "+err.Error(), detail(strings.Join(hist, "; ")))
+			ops = append(ops, u.App("RCoalesce", udRanges(before), udRanges(popped), udRanges(after), "false", "0", u.App("RErr", "2")))
 		case pkt != nil:
 			// (a lone packet that a builder's own PING / PADDING frames push over the size is C10's subject)
 			if limit := max(1252, sp.UDPDatagramMinSize); pkt.Coalesced > 1 && pkt.Size > limit {
@@ -1672,6 +1691,7 @@ func udRetx(o *udOut, r *u.Rng, scripted bool) {
 				o.fail("udial/retx/coalesced", fmt.Sprintf("%d packets in one datagram with %d bytes of datagram padding in front of the last one: the receiver cannot find it", pkt.Coalesced, pkt.Gap), detail(strings.Join(hist, "; ")))
 			}
 			o.dist[fmt.Sprintf("retx coalesced=%d", pkt.Coalesced)]++
+			ops = append(ops, u.App("RCoalesce", udRanges(before), udRanges(popped), udRanges(after), u.B(udAsPacked(pkt)), u.Z(int64(pkt.Coalesced)), u.App("RPkt", u.Z(pkt.PN), udRanges(pkt.Frames))))
 		}
 	}
 	if !dead {
